@@ -29,6 +29,12 @@ type termSpec struct {
 	// SilentJoin: the terminal's first message is a 0x0001 (handled, joins, gets no reply), so the first
 	// platform frame on the connection - the first command - carries platform serial 0
 	SilentJoin bool `json:"silent_join,omitempty"`
+	// busy-writer scripts: once online the terminal sends a location report at once (LocNow) or LocAfterMs of virtual
+	// time later (its reply's write callback is slow when the scenario sets SlowReplyMs), and, with CloseAfterMs,
+	// hangs up that long afterwards
+	LocNow       bool `json:"loc_now,omitempty"`
+	LocAfterMs   int  `json:"loc_after_ms,omitempty"`
+	CloseAfterMs int  `json:"close_after_ms,omitempty"`
 }
 
 type callSpec struct {
@@ -48,6 +54,9 @@ type cmdScn struct {
 	FailWrites bool         `json:"fail_writes,omitempty"`
 	Bound      int          `json:"bound,omitempty"`      // deviation bound override for this scenario (0 = the tier\'s bound)
 	Disconnect bool         `json:"disconnect,omitempty"` // C13 oracle (callers may get any error)
+	// SlowReplyMs: the user's OnWriteExecutionEvent callback takes this much virtual time for replies to location
+	// reports (the connection's writer is busy meanwhile and its queues fill up)
+	SlowReplyMs int `json:"slow_reply_ms,omitempty"`
 }
 
 type cmdRun struct {
@@ -162,7 +171,7 @@ func cmdMake(scn cmdScn) func() (func(), any) {
 		vnet.Reset()
 		r := &cmdRun{scn: scn}
 		body := func() {
-			r.w = startWorld(worldOpts{})
+			r.w = startWorld(worldOpts{slowReplyMs: scn.SlowReplyMs})
 			for i := range scn.Terms {
 				ts := &termState{spec: scn.Terms[i], answered: map[uint16]int{}}
 				r.terms = append(r.terms, ts)
@@ -278,6 +287,18 @@ func (r *cmdRun) runTerminal(ts *termState) {
 	case "reset-after-join":
 		closeNow(true)
 		return
+	}
+	if sp.LocNow || sp.LocAfterMs > 0 {
+		if sp.LocAfterMs > 0 {
+			vs.SleepNanos(int64(sp.LocAfterMs)*1e6, "terminal:loc-after")
+		}
+		p.Send(ref.Encode(ref.TermHeader(0x0200, sp.V2019, sp.Phone, next()), ref.Loc28(0, 0)))
+		ts.noise()
+		if sp.CloseAfterMs > 0 {
+			vs.SleepNanos(int64(sp.CloseAfterMs)*1e6, "terminal:close-after")
+			closeNow(false)
+			return
+		}
 	}
 	if sp.Behaviour == "prompt" {
 		// answer every command as soon as it has been written (needed when a caller sends sequentially)
@@ -462,6 +483,9 @@ func cmdCheck(res *vs.Result, user any) []vs.Violation {
 		if ti < 0 {
 			if !errors.Is(err, service.ErrNotExistKey) {
 				add("absent-key", fmt.Sprintf("%s: command for a key that is not online returned %v, want ErrNotExistKey", c.Name, err))
+			} else if c.TimeoutMs > 0 && c.ClockDone-c.ClockStart >= int64(c.TimeoutMs)*1e6 {
+				// "at once": the refusal must not be the product of waiting out the command's own timeout
+				add("absent-key-not-at-once", fmt.Sprintf("%s: command for a key that is not online returned ErrNotExistKey only after %d ms of virtual time (its timeout is %d ms)", c.Name, (c.ClockDone-c.ClockStart)/1e6, c.TimeoutMs))
 			}
 			continue
 		}
